@@ -510,6 +510,7 @@ func runC16(c *core.Ctx) {
 		}
 		const burstG, burstN = 24, 12
 		got := make([][]string, burstG)
+		envBad := make([]string, burstG)
 		var bw sync.WaitGroup
 		go2 := make(chan struct{})
 		for j := 0; j < burstG; j++ {
@@ -524,6 +525,27 @@ func runC16(c *core.Ctx) {
 				<-go2
 				for n := 0; n < burstN; n++ {
 					got[j] = append(got[j], verifyNested(actors[j%G]))
+					// an envelope of this goroutine's own: what is set is what is signed, dumped and loaded back
+					for rep := 0; rep < 4; rep++ {
+						want := gen.NewLink(fmt.Sprintf("burst-%d-%d-%d", j, n, rep), gen.Artifacts(map[string]string{fmt.Sprintf("line\none-%d\ttab", j): "x"}), nil)
+						want.ByProducts = map[string]interface{}{"stdout": strings.Repeat(fmt.Sprintf("output of goroutine %d\n", j), 20+j)}
+						e := &intoto.Envelope{}
+						if err := e.SetPayload(want); err != nil {
+							envBad[j] = "SetPayload: " + err.Error()
+							continue
+						}
+						p := filepath.Join(actors[j%G].dirs[0], fmt.Sprintf("burst-%d.env", j))
+						if err := e.Dump(p); err != nil {
+							envBad[j] = "Dump: " + err.Error()
+							continue
+						}
+						back, err := intoto.LoadMetadata(p)
+						if err != nil {
+							envBad[j] = "the envelope that was just set and dumped cannot be loaded: " + err.Error()
+						} else if normJSON(back.GetPayload()) != normJSON(want) {
+							envBad[j] = "the envelope that was just set and dumped holds other content than was set"
+						}
+					}
 				}
 			}(j)
 		}
@@ -537,6 +559,12 @@ func runC16(c *core.Ctx) {
 					bad++
 					c.Violation("concurrent InTotoVerify(nested layouts, burst of 24 goroutines) returns another result than the same call made sequentially", id, map[string]any{"goroutine": j, "iteration": n, "concurrent": r, "sequential": want})
 				}
+			}
+		}
+		for j, b := range envBad {
+			if b != "" && bad < 6 {
+				bad++
+				c.Violation("concurrent Envelope.SetPayload/Dump/LoadMetadata on a goroutine's own envelope (burst of 24 goroutines): "+core.MsgClass(b), id, map[string]any{"goroutine": j, "what": b})
 			}
 		}
 		c.Obs("burst_verifications_of_nested_layouts", int64(burstG*burstN))
@@ -692,7 +720,7 @@ func init() {
 	core.Register(&core.Property{
 		ID:    "C16",
 		Level: "exploration",
-		Rule: "rounds = fresh worker processes (quick 16, thorough 48); round k uses G in {2,4,8,16,32} goroutines and GOMAXPROCS in {2,4,16}; every goroutine owns a generated tree (half with file and directory symlinks, half with 2 MiB CRLF files), keys, a chain directory and metadata files, and runs 1 (quick) / 3 (thorough) times the list LoadMetadata of layout and links (first library operation of the process: cold caches), RecordArtifacts with and without normalisation, Metablock Sign/Dump/Load/Verify and Envelope SetPayload/Sign/Dump/Load/Verify with the file rewritten four times under the same base name in every goroutine's own directory, InTotoRun (vhelper), InTotoRecordStart/Stop, InTotoMatchProducts, InTotoVerify (no inspections; two stray links by unauthorized keys for the first step; layout with its own intermediate CA; the caller's list of additional intermediates is one read-only slice with spare capacity shared by all goroutines), InTotoVerify of nested layouts, RecordArtifacts on a tree with a directory symlink cycle (the error text must be the caller's own), InTotoVerifyWithDirectory (own run dir, globally unique inspection name), SubstituteParameters; then a burst of 24 goroutines verifying the nested chains 12 times each (compared with the sequential result); then the same lists are executed sequentially on identical copies of the data and compared result by result. Even shards run the -race build with GORACE=halt_on_error=0 log_path=...: report blocks are counted from the log files and attributed by their in_toto frames; the hook handler there only yields. Odd shards run the normal build in census mode: hook events (record_reset / record_symlink) are logged with their owner, the evidence lists the distinct interleavings (windows of 12 events) and the maximum number of calls in flight. Hang monitor in both builds: a goroutine that shares nothing with the actors samples the CPU time of the process; a round whose process consumes no CPU for 45 s while calls are outstanding is reported (calls that never return) with the system call every thread is blocked in. " +
+		Rule: "rounds = fresh worker processes (quick 16, thorough 48); round k uses G in {2,4,8,16,32} goroutines and GOMAXPROCS in {2,4,16}; every goroutine owns a generated tree (half with file and directory symlinks, half with 2 MiB CRLF files), keys, a chain directory and metadata files, and runs 1 (quick) / 3 (thorough) times the list LoadMetadata of layout and links (first library operation of the process: cold caches), RecordArtifacts with and without normalisation, Metablock Sign/Dump/Load/Verify and Envelope SetPayload/Sign/Dump/Load/Verify with the file rewritten four times under the same base name in every goroutine's own directory, InTotoRun (vhelper), InTotoRecordStart/Stop, InTotoMatchProducts, InTotoVerify (no inspections; two stray links by unauthorized keys for the first step; layout with its own intermediate CA; the caller's list of additional intermediates is one read-only slice with spare capacity shared by all goroutines), InTotoVerify of nested layouts, RecordArtifacts on a tree with a directory symlink cycle (the error text must be the caller's own), InTotoVerifyWithDirectory (own run dir, globally unique inspection name), SubstituteParameters; then a burst of 24 goroutines, each verifying a nested chain 12 times (compared with the sequential result) and setting / dumping / loading 48 envelopes of its own with multi-line content (what is loaded is what was set); then the same lists are executed sequentially on identical copies of the data and compared result by result. Even shards run the -race build with GORACE=halt_on_error=0 log_path=...: report blocks are counted from the log files and attributed by their in_toto frames; the hook handler there only yields. Odd shards run the normal build in census mode: hook events (record_reset / record_symlink) are logged with their owner, the evidence lists the distinct interleavings (windows of 12 events) and the maximum number of calls in flight. Hang monitor in both builds: a goroutine that shares nothing with the actors samples the CPU time of the process; a round whose process consumes no CPU for 45 s while calls are outstanding is reported (calls that never return) with the system call every thread is blocked in. " +
 			"non-trivial = a round with >=2 calls in flight; distinct = (mode, round, goroutine, position in its operation list) of the compared concurrent calls, plus (mode, G, GOMAXPROCS, interleaving hash) per round",
 		Assumptions: []string{"inspections of InTotoVerify without run directory use the process cwd and are excluded from 'independent data'; InTotoVerifyWithDirectory drops <inspection>.link into the shared cwd under globally unique names", "the race detector only sees races on executed paths; its silence is 'no report on these executions'"},
 		Workers: func(t string) int {
